@@ -7,7 +7,8 @@ EXTENDS SqlSem, Json
 VARIABLE x
 Cases == ndJsonDeserialize("cases.ndjson")
 Bad == {i \in 1..Len(Cases) : ~ResultOK(Cases[i].db, Cases[i].q, Cases[i].res)}
-ASSUME PrintT(<<"SCN", ToJson([n |-> Len(Cases), bad |-> SetToSeq(Bad)])>>)
+Known == {i \in Bad : KnownRunningAvg(Cases[i].db, Cases[i].q, Cases[i].res)}
+ASSUME PrintT(<<"SCN", ToJson([n |-> Len(Cases), bad |-> SetToSeq(Bad), known |-> SetToSeq(Known)])>>)
 Init == x = 0
 Next == x' = x
 =============================================================================
